@@ -20,7 +20,8 @@ func TestVerifC18(t *testing.T) {
 	if w.ReplayV != nil {
 		w.Replayer = nil
 	}
-	cch, err := NewCache(Options{CacheDir: t.TempDir()})
+	dir := t.TempDir()
+	cch, err := NewCache(Options{CacheDir: dir})
 	if err != nil {
 		t.Fatalf("%v", err)
 	}
@@ -79,6 +80,19 @@ func TestVerifC18(t *testing.T) {
 				}
 				p := cch.InsertPod(&nri.PodSandbox{Id: fmt.Sprintf("p%d", n), Name: "pod", Namespace: "ns", Annotations: ann}, nil)
 				got, ok := p.GetEffectiveAnnotation(key, target)
+				if n%37 == 0 {
+					// the same lookup on the pod as a restarted plugin restores it from the state directory
+					if re, err := NewCache(Options{CacheDir: dir}); err != nil {
+						t.Fatalf("%v", err)
+					} else if rp, found := re.LookupPod(p.GetID()); !found {
+						w.Report(mc.Violation{Property: "C18", Oracle: "effective-annotation", Signature: "cache-effective-annotation:pod-not-restored", Scenario: "cache", Detail: "the pod is not in the reloaded cache"})
+					} else if rgot, rok := rp.GetEffectiveAnnotation(key, target); rok != present || rgot != expect {
+						w.Report(mc.Violation{Property: "C18", Oracle: "effective-annotation", Signature: "cache-effective-annotation:after-restart", Scenario: "cache",
+							Trace:  []string{fmt.Sprintf("key=%s container=%s annotations=%v, then restart", key, target, ann)},
+							Detail: fmt.Sprintf("after a restart GetEffectiveAnnotation(%q, %q) = (%q, %v), expected (%q, %v)", key, target, rgot, rok, expect, present)})
+					}
+					w.Res.Evaluations++
+				}
 				cch.DeletePod(p.GetID())
 				n++
 				w.Res.Evaluations++
